@@ -75,6 +75,10 @@ func (self *fieldMap) SetIfNotExist(f fieldID, ft FieldMaskType, black bool) (s 
 }
 
 func (self *fieldMap) Get(f fieldID) (ret *FieldMask) {
+	if self == nil {
+		// no field has been set (e.g. a mask that is not of type Struct)
+		return nil
+	}
 	if f >= 0 && f <= _MaxFieldIDHead {
 		ret = self.head[f]
 	} else {
